@@ -72,6 +72,27 @@ def triage12(ctx, cls, base, fl, symptom, what, replay):
     ctx.violation(('C12', cls, symptom, base.tag), '%s [%s on %s] %s' % (symptom, cls, base.tag, what), replay)
 
 
+WELLFORMED_TEXTS = [
+    ('names-differ-in-case', 'root packet A { u8 OrderID, u16 orderId, u32 ORDERID, string Px, string PX, B b, B B, }\npacket B { u8 x, u8 X, }'),
+    ('names-differ-in-underscores', 'root packet A { u8 order_id, u16 orderid, u32 order__id, u8 _x, u8 x_, }'),
+    ('inline-members-differ-in-case', 'root packet A { Leg { u8 Side, u8 side, }, leg { u8 Side, }, }'),
+    ('packet-names-differ-in-case', 'root packet A { Body, body b2, }\npacket Body { u8 X, }\npacket body { u8 X, }'),
+    ('unreferenced-packet', 'root packet A { u8 X, }\npacket Orphan { u8 Y, }\npacket Orphan2 { Orphan O, }'),
+    ('empty-options', 'options { }\nroot packet A { u8 X, }'),
+    ('two-metadata-blocks', 'MetaData M1 { u8 A `a`, }\nMetaData M2 { u16 B `b`, A C `c`, }\nroot packet P { A, B, C, repeat C Cs, }'),
+    ('metadata-chain', 'MetaData M { u32 A `a`, A B `b`, B C `c`, C D `d`, }\nroot packet P { D, D Again, repeat D Ds, }'),
+    ('empty-string-key', 'root packet A { string K, match K as Body { "" : B, "x" : C, }, }\npacket B { }\npacket C { u8 Y, }'),
+    ('key-with-punctuation', 'root packet A { string K, match K as Body { "A,B" : B, ["C,D", "E F", "G:H"] : C, }, }\npacket B { }\npacket C { u8 Y, }'),
+    ('same-key-in-two-matches', 'root packet A { u8 K, match K as B1 { 1 : B, 2 : C, }, Sub, }\npacket Sub { u8 K, match K as B2 { 1 : C, 2 : B, }, }\npacket B { }\npacket C { u8 Y, }'),
+    ('zero-length-strings', 'root packet A { char[0] X, zchar[0] Y, repeat char[0] Zs, u8 T, }'),
+    ('big-keys', 'root packet A { u64 K, match K as Body { 18446744073709551615 : B, 0 : C, 9223372036854775808 : C, }, }\npacket B { }\npacket C { u8 Y, }'),
+    ('field-named-like-its-type', 'root packet A { B B, C C, }\npacket B { u8 B, }\npacket C { B B, }'),
+    ('one-line-crlf-tabs', 'options{LittleEndian=true;}\r\nroot\tpacket\tA{u8\tX,match X as B{1:C,2:C},}\r\npacket C{}'),
+    ('comment-at-eof-without-newline', 'root packet A { u8 X, } // the end'),
+    ('doc-everywhere', 'MetaData M { u8 A `a\nb`, A B `c`, }\nroot packet P { A `x`, B Bb `y`, repeat u8 L `z`, Q `q`, Q Named `qq`, u16 Ln @lengthOf(T) `len`, T, u32 Ck @calculatedFrom("CRC32") `ck`, }\npacket Q { }\npacket T { }'),
+]
+
+
 def c12(ctx):
     quick = ctx.tier == 'quick'
     ctx.level = 'fault_enumeration'
@@ -161,6 +182,26 @@ def c12(ctx):
     ctx.cov['faulted_runs_per_class'] = per_class
     ctx.cov['wellformed_bases'] = nb
     strace_sample(ctx, results)
+    # ---- acceptance lane: every protocol of the feature matrix (canonical and in its fixed rewritten spelling) and a list of
+    # hand-written well-formed texts with unusual but legal content must be accepted without a diagnostic (in-process, same
+    # steps as the CLI's parse)
+    from . import pipeline
+    nacc = 0
+    for p in gen.matrix_protos():
+        for text in {dslprint.render(p), pipeline.spelled(p)}:
+            r = ctx.vapi.compile(text, [])
+            nacc += 1
+            ctx.evaluated(1, key=(p.tag, 'accepted', len(text) % 7))
+            if r.get('syn_err') or r.get('diags') or not r.get('parsed'):
+                ctx.violation(('C12', 'well-formed-rejected', p.tag), 'well-formed-rejected [%s] %s %s' % (p.tag, (r.get('syn_err') or '')[:200], r.get('diags')), {'dsl': text, 'diags': r.get('diags'), 'syn_err': r.get('syn_err')})
+                break
+    for label, text in WELLFORMED_TEXTS:
+        r = ctx.vapi.compile(text, [])
+        nacc += 1
+        ctx.evaluated(1, key=('wellformed', label))
+        if r.get('syn_err') or r.get('diags') or not r.get('parsed'):
+            ctx.violation(('C12', 'well-formed-rejected', label), 'well-formed-rejected [%s] %s %s' % (label, (r.get('syn_err') or '')[:200], r.get('diags')), {'dsl': text, 'diags': r.get('diags'), 'syn_err': r.get('syn_err')})
+    ctx.cov['acceptance_lane_texts'] = nacc
     probes(ctx, 'C12')
 
 
@@ -621,7 +662,7 @@ def c16(ctx):
         for sub in subs:
             for word in (False, True):
                 jn += 1
-                jobs.append((jn, p, text, sub, word, r2.choice(['rel', 'abs', 'nested', 'space', 'subcmd', 'dirty', 'dirty'])))
+                jobs.append((jn, p, text, sub, word, r2.choice(['rel', 'abs', 'nested', 'space', 'subcmd', 'dirty', 'dirty', 'srcsub'])))
     expect = {}
     for p in protos:
         text = dslprint.render(p)
@@ -639,13 +680,18 @@ def c16(ctx):
         wd = os.path.join(ctx.scr.dir, 'c16c', 'j%d' % jn_)
         os.makedirs(wd, exist_ok=True)
         src = os.path.join(wd, 'in.dsl')
-        with open(src, 'w') as f:
+        if shape == 'srcsub':
+            # the protocol file lives in a sub-directory and is named by a relative path; relative output directories are still
+            # relative to the working directory
+            os.makedirs(os.path.join(wd, 'protos', 'v1'), exist_ok=True)
+            src = os.path.join('protos', 'v1', 'in.dsl')
+        with open(os.path.join(wd, src), 'w') as f:
             f.write(text)
         args = (['compile'] if word else []) + ['-f', src]
         dirs = {}
         for l in sub:
             name = {'rel': 'out_%s' % l, 'abs': os.path.join(wd, 'abs_%s' % l), 'nested': 'a/b c/%s/deep' % l, 'space': 'dir with space %s' % l,
-                    'subcmd': {0: 'format', 1: 'compile', 2: 'help'}.get(sub.index(l), 'completion_%s' % l), 'dirty': 'used_%s' % l}[shape]
+                    'subcmd': {0: 'format', 1: 'compile', 2: 'help'}.get(sub.index(l), 'completion_%s' % l), 'dirty': 'used_%s' % l, 'srcsub': 'gen/%s' % l}[shape]
             dirs[l] = name
             args += [FLAGS[l], name]
             if shape == 'dirty':
@@ -710,7 +756,7 @@ def c16(ctx):
             d = tree_diff(want, got)
             if d:
                 triage16(ctx, 'compile', 'tree-differs', 'compile', '%s tree differs from the generator file map: %s' % (l, d[:4]), dict(rep, lang=l, diff=d))
-        stray = [f for f in allfiles if os.path.normpath(f) not in expected_files and f not in ('in.dsl', 'cli.out')]
+        stray = [f for f in allfiles if os.path.normpath(f) not in expected_files and f not in ('in.dsl', 'cli.out', os.path.join('protos', 'v1', 'in.dsl'))]
         if stray:
             triage16(ctx, 'compile', 'stray-files', 'compile', 'files outside the generators\' file set: %s' % stray[:5], rep)
     ctx.cov['compile_runs'] = len(jobs)
